@@ -370,11 +370,56 @@ def rule_str_never_formats_none(eng, rep, rule="C20-4.str-never-formats-None", s
             gs = [a for (_b, a) in guards_of(cfg, cfg.cfg_node(node))]
             guarded = any(g.op == "isnot" and _self_attr(g.lhs, selfn) == f and is_none(g.rhs) for g in gs)
             by_flag = any(g.op == "ne" and "EXIT_INPUT_ERROR" in (mentions(g.lhs) | mentions(g.rhs)) for g in gs)
+            if f in nullable_solution_fields(eng):
+                by_flag = False     # this field can be None on a result that carries a solution: only a None test of the field itself protects len()
             if guarded or by_flag:
                 rep.ok(rule, eng.where(st, node), "len(self.%s) %s" % (f, "guarded by None test" if guarded else "only for results that carry a solution"))
             else:
                 rep.bad(rule, eng.where(st, node), "solver.OptimResults.__str__|len-of-none|%s" % f, "len(self.%s) without a None / input-error guard" % f)
     rep.require_count(rule, "numeric conversions and len() in __str__", n, 5)
+
+
+_NULLABLE = {}
+
+
+def nullable_solution_fields(eng):
+    """Result fields that can be None on a result that carries a solution:
+    (a) beliefs of __str__ itself -- a field it compares with None anywhere is believed nullable (contradiction rule: one branch tests,
+        another must not dereference unconditionally);
+    (b) positions of solve_main's return tuples that hold a literal None."""
+    if id(eng) in _NULLABLE:
+        return _NULLABLE[id(eng)]
+    out = set()
+    st = eng.fn("solver.OptimResults.__str__")
+    selfn = st.posparams[0]
+    for node in eng.prog.own_nodes(st):
+        if isinstance(node, ast.Compare) and len(node.ops) == 1 and isinstance(node.ops[0], (ast.Is, ast.IsNot)) and is_none(node.comparators[0]):
+            f = _self_attr(node.left, selfn)
+            if f:
+                out.add(f)
+    from .anchors import anchors
+    from .c02 import final_ctor
+    from .common import assigned_names
+    A = anchors(eng)
+    ci, b = final_ctor(eng, A)
+    init, p2a, others = ctor_fields(eng)
+    nonepos = set()
+    for node in eng.prog.own_nodes(A.solve_main):
+        if isinstance(node, ast.Return) and isinstance(node.value, ast.Tuple):
+            for i, e in enumerate(node.value.elts):
+                if is_none(e):
+                    nonepos.add(i)
+    names = {}
+    for c in A.solve_main_calls:
+        stmt = eng.prog.stmt_of(c.node)
+        for i, nme in enumerate(assigned_names(stmt.targets[0])):
+            names.setdefault(nme, i)
+    for p, attr in p2a.items():
+        e = b.params.get(p)
+        if isinstance(e, ast.Name) and names.get(e.id) in nonepos:
+            out.add(attr)
+    _NULLABLE[id(eng)] = out
+    return out
 
 
 def _quiet_safe(eng, forms):
